@@ -198,3 +198,41 @@ func init() {
 	register("wproto", cmdWproto)
 	register("roundtrip", cmdRoundtrip)
 }
+
+type readCase struct {
+	Bytes Bytes `json:"bytes"`
+	Mode  string `json:"mode"`
+}
+
+// read: plain full traversal of given bytes with the real Reader (C02, C03, ...).
+// The observation has the shape Judge_RT expects (out = the input bytes).
+func cmdRead(in *bufio.Scanner, out *bufio.Writer) error {
+	idx := 0
+	for in.Scan() {
+		var c readCase
+		if err := json.Unmarshal(in.Bytes(), &c); err != nil {
+			return err
+		}
+		idx++
+		mode := c.Mode
+		if mode == "" {
+			mode = "binary"
+		}
+		o := rtObs{Idx: idx, Mode: mode, Out: c.Bytes, Back: []Val{}}
+		rerr, rpan, rsite := safely(func() error {
+			back, err := projectAll(ion.NewReaderBytes([]byte(c.Bytes)))
+			o.Back = back
+			return err
+		})
+		if rpan {
+			o.RPan = rsite
+		}
+		o.RErr = errString(rerr)
+		if err := emit(out, o); err != nil {
+			return err
+		}
+	}
+	return in.Err()
+}
+
+func init() { register("read", cmdRead) }
